@@ -49,7 +49,9 @@ def _ops():
         st.sampled_from(("255;255;3;0;3;\n", "junk\n", "0;255;3;0;14;ready\n")),
         st.sampled_from(("0;255;0;0;18;2.1\n", "0;255;0;0;18;2.2.0\n", "0;255;3;0;2;2.0.1\n", "0;255;3;0;2;2.2\n", "0;255;0;0;18;2.0\n")),
     )
-    return st.lists(gen.with_ack(gen.weighted((6, missing_kinds), (2, present), (2, never))).map(lambda l: ["rx", l]), min_size=8, max_size=30)
+    lines = gen.with_ack(gen.weighted((6, missing_kinds), (2, present), (2, never))).map(lambda l: ["rx", l])
+    pause = st.sampled_from((1, 59, 61, 600, 3600, 86400)).map(lambda t: ["sleep", t])
+    return st.lists(gen.weighted((10, lines), (1, pause)), min_size=8, max_size=30)
 
 
 _registry = st.sampled_from(
@@ -106,6 +108,8 @@ def run_case(case: dict) -> Outcome:
 
     def after_step(rec, gateway, transport, model):
         pred = rec.pred
+        if pred is None:
+            return None
         if any(drive.PRESREQ.match(w) for w in rec.writes) and pred.fields:
             node = pred.fields[0]
             if node in state["failed_nodes"]:
@@ -119,7 +123,10 @@ def run_case(case: dict) -> Outcome:
             state["episodes"][pred.fields[0]] = True
         return None
 
-    bad, info = env.run(drive.run_history(case, ASPECTS, hooks={"setup": setup, "fault_step": fault_step, "after_step": after_step}))
+    from vf.vloop import run_virtual
+
+    # on the virtual-time loop: pauses of minutes or hours between messages cost nothing
+    (bad, info), _loop = run_virtual(lambda: drive.run_history(case, ASPECTS, hooks={"setup": setup, "fault_step": fault_step, "after_step": after_step}))
     classes = tuple(sorted(info["classes"])) + (f"version={case['version']}",)
     if state["failed"]:
         classes += ("request-write-failed",)
